@@ -268,7 +268,7 @@ PROPS = {
         assumptions=["statrs StudentsT/Normal inverse_cdf are the true quantiles (validated under C06)"],
     ),
     "C04": dict(
-        modules=["StatsCI.Properties.C04"],
+        modules=["StatsCI.Properties.C04", "StatsCI.Properties.C04R"],
         anchors=["src/comparison.rs", "src/mean.rs", "src/stats.rs"],
         needs_crit=True, exact_ops=set(),
         technique="Lean 4 theorems (paired = mean CI of differences for every carrier; unpaired Welch-type formula, dof >= 1, swap symmetry) + differential correspondence with exact-rational and metamorphic oracles",
@@ -277,7 +277,7 @@ PROPS = {
                    "with c requested at the documented effective dof, which is >= min(na,nb)-1 >= 1; for every odd rounding function exchanging the samples negates "
                    "and mirrors the interval. Tied to the code on random pairs of samples (equal/unequal sizes, one constant sample, variance ratios 2^+-40, f32/f64, "
                    "six feeding styles); oracles: paired == arith(differences) bit-for-bit, swap mirrors bit-for-bit, bounds vs exact rational statistics.",
-        level_note="Trusted: Lean kernel + 3 standard axioms; statrs quantile external. Two constant samples: in real arithmetic with x/0=0 the model asks t at "
+        level_note="Trusted: Lean kernel + 3 standard axioms; statrs quantile external. Rounding is a theorem too (C04R) under the standard model: the paired state is the Arith state of the rounded differences (C01R bounds transfer; mean and deviation of rounded vs exact differences within u mean|d| and u sqrt(sum d^2/(n-1))); for the unpaired producer the mean difference is within 15u(mean|a|+mean|b|), the sum s_a^2/n_a+s_b^2/n_b within 53uW, the standard error within min(8 sqrt(uW), 55uW/se), the bounds for a GIVEN critical value within 17u(..)+(1+3u)c 8 sqrt(uW)+3u c se, and |dof_fl - dof| <= (255 kappa+19)u(dof+2) when 51 u kappa <= 1/64; dof <= n_a+n_b. Two constant samples: in real arithmetic with x/0=0 the model asks t at "
                    "dof -2 (panic); IEEE gives NaN dof and the z branch - this difference between the RR interpretation and IEEE is stated as a theorem and "
                    "covered by execution.",
         rule="100 (quick) / 600 (thorough) random paired cases (every 5th with unequal lengths) and as many unpaired cases; f32 and f64; distinct by sha1 of the input"
@@ -285,7 +285,7 @@ PROPS = {
         trusted_base=["rounding: IEEE arithmetic is interpreted as reals with an abstract rounding function; overflow/underflow/NaN propagation are outside these theorems (covered by execution and by C11)"],
     ),
     "C05": dict(
-        modules=["StatsCI.Properties.C05"],
+        modules=["StatsCI.Properties.C05", "StatsCI.Properties.C05R"],
         anchors=["src/mean.rs"],
         needs_crit=True, exact_ops={"reject"},
         technique="Lean 4 theorems (back-transform identities, H <= G <= A, standard errors, rejection leaves the state unchanged) + differential correspondence with back-transform oracles on the implementation's own outputs",
@@ -294,7 +294,7 @@ PROPS = {
                    "H <= G <= A, the two standard-error formulas; for every carrier a non-positive value is rejected with NonPositiveValue(value) and extend leaves "
                    "exactly the state of the accepted prefix. Tied to the code on positive samples (wide dynamic range, near-constant, f32/f64), and a non-positive "
                    "value (0, -0, negative, -inf, tiny) at every position of a short sample.",
-        level_note="Trusted: Lean kernel + 3 standard axioms; libm ln/exp are compared bit-for-bit (same libm on both sides), not proved correctly rounded.",
+        level_note="Trusted: Lean kernel + 3 standard axioms; libm ln/exp are compared bit-for-bit (same libm on both sides), not proved correctly rounded. Rounding is a theorem (C05R) under the standard model extended to ln/exp/div: the state is the Arith state of the rounded transformed data; the log-/reciprocal-space interval is within E = 95u(mean|y| + hw(1+kappa)) (or the sqrt form) of the exact one; the geometric bounds carry a relative error exp(E)-1+u exp(E); a positive reciprocal-space bound r with E <= r/2 is inverted within 2E/r^2+2u/r, a bound <= -E gives +inf like exact arithmetic, and for -E < r <= E the branch is provably undetermined.",
         rule="positive samples of all sizes 2..9, 60/400 random sizes, f32 and f64, geometric and harmonic; 5 non-positive values x every position of a 6-element "
              "sample x 2 means x 2 float types + random positions of longer samples; H<=G<=A on 60/400 samples; distinct by sha1 of the input",
         trusted_base=["rounding: IEEE arithmetic is interpreted as reals with an abstract rounding function; overflow/underflow/NaN propagation are outside these theorems (covered by execution and by C11)"],
